@@ -1,8 +1,9 @@
 """Which units (and extra engines) serve which property, plus MANIFEST metadata."""
-UNITS = ['u_list']
+UNITS = ['u_list', 'u_jobs']
 
 PROPERTY_UNITS = {
     'C03': ['u_list'],
+    'C06': ['u_jobs'],
 }
 EXTRA_ENGINES = {}
 HOOK_COMMITS = []
@@ -17,6 +18,15 @@ META = {
     },
 }
 
+META['C06'] = {
+    'text': 'Verus proves whole-view postconditions and preservation of the table invariant (ids in 1..65535 equal to their key, non-empty duplicate-free '
+            'pid lists, pairwise distinct group ids) for every job-table operation of Shell (insert_job: same group appends / new job takes the smallest '
+            'free id; remove_pid_from_job: exactly that pid goes, the job goes iff it became empty; member stopped/continued; job running/stopped; lookups), '
+            'for all tables and all pid orders.',
+    'note': 'std HashMap/HashSet/Vec contracts (vstd; get_mut and binary_search/position written out); < 65533 jobs; insert_job caller facts '
+            '(same-gid job has all smaller ids occupied, pid fresh) assumed; job-control event protocol (wait_fg_job / try_wait_bg_jobs) is U-WAIT.',
+}
+
 _PENDING = 'not yet brought under contract in this revision of /verif (work in progress; see DESIGN.md)'
 NOT_APPLICABLE = {
     'C14': 'parse tree comes from a macro-generated pest parser and the external, lifetime-parameterised pest::iterators::Pair type; no contract within reach',
@@ -24,5 +34,5 @@ NOT_APPLICABLE = {
     'C18': 'semantics live in SQLite\'s SQL parser (bundled C library); SQL is built with format!, outside Verus',
     'C20': 'needs the lineread completer protocol, a populated filesystem and the escaped-word round trip (a recorded C01 violation)',
 }
-for _p in ['C01', 'C02', 'C04', 'C05', 'C06', 'C07', 'C08', 'C09', 'C10', 'C11', 'C12', 'C13', 'C15', 'C17', 'C19']:
+for _p in ['C01', 'C02', 'C04', 'C05', 'C07', 'C08', 'C09', 'C10', 'C11', 'C12', 'C13', 'C15', 'C17', 'C19']:
     NOT_APPLICABLE.setdefault(_p, _PENDING)
